@@ -1300,9 +1300,17 @@ pub fn make(w: &mut World, kind: Kind, fd: Option<usize>, pool: Option<usize>, t
         }
         Kind::ReadLimited => {
             use a10::io::BufMut;
-            let lim = 1 + tape::choose(site::BUF, len as u32) as usize;
+            // Limits below, at and above the buffer's spare capacity (a limit
+            // never enlarges what the kernel may write).
+            let lim = match tape::choose(site::BUF, 5) {
+                0 => len + 1 + tape::choose(site::BUF, 64) as usize,
+                1 => len,
+                2 => usize::MAX,
+                _ => 1 + tape::choose(site::BUF, len as u32) as usize,
+            };
             let buf = new_vec(len, 0, tag);
             let fut_ = alloc::a10(|| f.unwrap().read(buf.limit(lim)));
+            let lim = lim.min(len);
             (
                 fut(fut_, |o, _| io_err(o).map(|b| Val::Bytes(b.into_inner()))),
                 exp(move |rec, i, _, _| {
